@@ -46,3 +46,188 @@ contract(
         "file-system-untouched": "fs_unchanged()",
     },
 )
+
+
+# ---------------------------------------------------------------------------------------------------------------
+# reindex_database (plain reindex): the decision loop against an ABSTRACT index.
+#
+# Abstract view: the index is a map  page name -> the page content it was compiled from  (ghost `idx`, maintained by the
+# stubs of SQLRepo.remove_file_by_name / add_file; walk_zorg_page returns a page that remembers the content it read).
+# A freshly created index of a directory is, in this view, { name(p) -> content(p) } over the pages on disk; the
+# postcondition says that a plain reindex produces exactly that map - whatever the stored hash map and the old index were,
+# as long as they agreed with each other (the invariant every create / reindex establishes, clause `hash-map-describes-the-index`).
+# ---------------------------------------------------------------------------------------------------------------
+from engine.spec import fs_exists, fs_only_changed, ghost, json_map, opaque as _opaque  # noqa: E402
+from contracts.c05 import hash_file_of  # noqa: E402,F401
+from zorg.domain.messages import commands as _commands  # noqa: E402
+from zorg.domain.models import Page as _Page  # noqa: E402
+
+NPG = 2  # pages on disk and entries of the stored hash map: at most 2 each (names, contents, digests fully symbolic)
+RE_BOUNDED = (f"bounded-symbolic: at most {NPG} pages on disk and at most {NPG} entries in the stored hash map (page names, contents and digests "
+              "fully symbolic; plain reindex, empty error whitelist)")
+
+
+@_opaque("bool", always=True)
+def has_syntax_errors(content):
+    """walk_zorg_page(...).has_errors as a function of the page content (C08 decides what it is)"""
+    return False
+
+
+def _rel(interp, zdir, p):
+    from contracts import c16
+
+    return interp.call(interp.wrap_global(c16.relative), [zdir, p], {})
+
+
+def _reindex_prelude(interp, loc):
+    """cmd: plain reindex of zdir; `pages`: 0..NPG pages on disk with distinct names; the hash file holds a map with 0..NPG
+    entries; the error whitelist is empty; `idx`: the abstract index (any map; tied to the hash map by the requires clauses)"""
+    import z3
+    from engine import models, sym
+    from engine.interp import _SymKey
+    from zorg.storage.sql import SQLSession
+    from zorg.storage.sql._repo import SQLRepo
+
+    ctx = interp.ctx
+    zdir = PATH.fresh(ctx, "zdir")
+    g = models.fs_state(interp)
+
+    def count(tag):
+        n = 0
+        while n < NPG and ctx.branch(ctx.fresh(f"{tag}.more{n}", z3.BoolSort()), f"more than {n} {tag}"):
+            n += 1
+        return n
+
+    pages = [PATH.fresh(ctx, f"page{i}") for i in range(count("pages"))]
+    names = [_rel(interp, zdir, p) for p in pages]
+    for i, p in enumerate(pages):
+        ps = sym.zstr(p.fields["s"])
+        g["fs_exists"] = z3.Store(g["fs_exists"], ps, True)
+        ctx.assume(z3.Length(sym.zstr(names[i])) > 0)
+        for j in range(i):
+            ctx.assume(sym.zstr(names[i]) != sym.zstr(names[j]))
+            ctx.assume(ps != sym.zstr(pages[j].fields["s"]))
+    old_map = {}
+    for j in range(count("stored")):
+        k = sym.TStr().fresh(ctx, f"stored.name{j}")
+        ctx.assume(z3.Length(k.t) > 0)
+        for kk in old_map:
+            ctx.assume(k.t != sym.zstr(kk.v))
+        old_map[_SymKey(k)] = sym.TStr().fresh(ctx, f"stored.digest{j}")
+    from contracts import c05
+
+    hpath = interp.call(interp.wrap_global(c05.hash_file_of), [zdir], {})
+    hs = sym.zstr(hpath.fields["s"])
+    h0 = ctx.fresh("hashfile.text", z3.StringSort())
+    ctx.ghost.setdefault("json_known", {})[models._key(h0)] = old_map
+    wl = PATH.fresh(ctx, "whitelist")
+    ws = sym.zstr(wl.fields["s"])
+    ctx.assume(ws != hs)
+    g["fs_exists"] = z3.Store(g["fs_exists"], ws, True)
+    g["fs_content"] = z3.Store(g["fs_content"], ws, z3.StringVal(""))
+    for p in pages:
+        ctx.assume(z3.And(sym.zstr(p.fields["s"]) != hs, sym.zstr(p.fields["s"]) != ws))
+    # last store: reading the hash file back simplifies to its text syntactically (the decoder recognises it by that)
+    g["fs_exists"] = z3.Store(g["fs_exists"], hs, True)
+    g["fs_content"] = z3.Store(g["fs_content"], hs, h0)
+    idx = sym.TMap(sym.TStr(), sym.TStr()).fresh(ctx, "idx")
+    ctx.ghost["user"] = {"pages": pages, "idx": idx, "whitelist": wl, "zdir": zdir, "stored": old_map}
+    repo = sym.Rec("SQLRepo", {}, cls=SQLRepo)
+    loc["cmd"] = sym.Rec("ReindexDBCommand", {"zettel_dir": zdir, "paths": [], "verbose": False}, cls=_commands.ReindexDBCommand)
+    loc["session"] = sym.Rec("SQLSession", {"repo": repo, "zdir": zdir}, cls=SQLSession)
+    loc["_ghost_zdir"] = zdir
+
+
+def _stub_all_pages(interp, args, kwargs):
+    """every *.zo file under the notes directory (Path.rglob, sorted): the ghost list `pages`"""
+    return list(interp.ctx.ghost["user"]["pages"])
+
+
+def _stub_whitelist(interp, args, kwargs):
+    """the error whitelist file of the notes directory (created when missing)"""
+    return interp.ctx.ghost["user"]["whitelist"]
+
+
+def _stub_walk(interp, args, kwargs):
+    """compiles the page NAME under the notes directory: the result remembers the content it was compiled from and whether
+    that content has syntax errors (a function of the content)"""
+    import z3
+    from engine import models, sym
+
+    u = interp.ctx.ghost["user"]
+    name = args[1].fields["s"] if isinstance(args[1], sym.Rec) else args[1]
+    for p in u["pages"]:
+        t = sym.eq_term(interp.ctx, name, _rel(interp, u["zdir"], p))
+        if t is True or (t is not False and interp.ctx.branch(t, "walk: this page")):
+            content = sym.sstr(z3.Select(models.fs_state(interp)["fs_content"], sym.zstr(p.fields["s"])))
+            errs = interp.call(interp.wrap_global(has_syntax_errors), [content], {})
+            return sym.Rec("Page", {"path": p, "has_errors": errs, "events": sym.PList(None, []), "walked": content}, cls=_Page)
+    from engine.ctx import Abort
+
+    raise Abort("walk_zorg_page of a name that is not a page on disk (not reachable: the names come from the pages)")
+
+
+def _stub_remove(interp, args, kwargs):
+    """SQLRepo.remove_file_by_name(name): removes the page and its notes from the index; returns the old page, None if the
+    index had no such page"""
+    import z3
+    from engine import sym
+
+    u = interp.ctx.ghost["user"]
+    idx, name = u["idx"], sym.zstr(args[-1])  # (self,) name
+    present = z3.Select(idx.has, name)
+    u["idx"] = sym.SMap(z3.Store(idx.has, name, False), idx.val, idx.kty, idx.vty)
+    if interp.ctx.branch(present, "the index has this page"):
+        return sym.Rec("Page", {"path": PATH.fresh(interp.ctx, "oldpage"), "has_errors": False, "events": sym.PList(None, []), "walked": sym.sstr(z3.Select(idx.val, name))}, cls=_Page)
+    return None
+
+
+def _stub_add(interp, args, kwargs):
+    """SQLRepo.add_file(page): the index holds the page, compiled from the content the page was walked from"""
+    import z3
+    from engine import sym
+
+    u = interp.ctx.ghost["user"]
+    idx, page = u["idx"], args[-1]  # (self,) page
+    name = sym.zstr(_rel(interp, u["zdir"], page.fields["path"]))
+    u["idx"] = sym.SMap(z3.Store(idx.has, name, True), z3.Store(idx.val, name, sym.zstr(page.fields["walked"])), idx.kty, idx.vty)
+    return None
+
+
+def _stub_noop(interp, args, kwargs):
+    """no effect on the file system or the abstract index (session.commit; _check_for_modified_notes only edits the notes of the
+    page object and queues an event - C11)"""
+    return None
+
+
+def on_disk(zdir, k):
+    return any(relative(zdir, p) == k for p in ghost("pages"))
+
+
+def changed(zdir, p):
+    """the page is new to the stored hash map or its digest differs"""
+    m = ghost("stored")
+    return relative(zdir, p) not in m or m[relative(zdir, p)] != sha256_of(fs_read(p))
+
+
+contract(
+    H + "reindex_database", props=["C06"], args={}, prelude=_reindex_prelude, list_bound=NPG, bounded_note=RE_BOUNDED,
+    inline=[H + "_get_file_hash_map"],
+    stubs={H + "_get_zo_paths_to_index": _stub_all_pages, H + "_get_error_file_whitelist": _stub_whitelist,
+           "zorg.service.compiler._api:walk_zorg_page": _stub_walk, "zorg.storage.sql._repo:SQLRepo.remove_file_by_name": _stub_remove,
+           "zorg.storage.sql._repo:SQLRepo.add_file": _stub_add, "zorg.storage.sql._session:SQLSession.commit": _stub_noop,
+           H + "_check_for_modified_notes": _stub_noop},
+    requires={
+        "hash-map-describes-the-index (keys)": "forall_str(lambda k: (k in ghost('idx')) == (k in ghost('stored')))",
+        "hash-map-describes-the-index (digests)": "all(sha256_of(ghost('idx')[k]) == ghost('stored')[k] for k in ghost('stored').keys())",
+        "A-SHA: no collision between a page on disk and an indexed content": "all(implies(sha256_of(fs_read(p)) == sha256_of(ghost('idx')[k]), fs_read(p) == ghost('idx')[k]) for p in ghost('pages') for k in ghost('stored').keys())",
+    },
+    raises={"RuntimeError": "any(changed(_ghost_zdir, p) and has_syntax_errors(fs_read(p)) for p in ghost('pages'))"},
+    ensures={
+        "the-index-holds-exactly-the-pages-on-disk": "forall_str(lambda k: (k in ghost('idx')) == on_disk(_ghost_zdir, k))",
+        "every-page-is-indexed-with-its-current-content": "all(ghost('idx')[relative(_ghost_zdir, p)] == fs_read(p) for p in ghost('pages'))",
+        "the-stored-hash-map-describes-the-new-index": "forall_str(lambda k: (k in json_map(fs_read(hash_file_of(_ghost_zdir)))) == on_disk(_ghost_zdir, k)) and "
+                                                       "all(json_map(fs_read(hash_file_of(_ghost_zdir)))[relative(_ghost_zdir, p)] == sha256_of(fs_read(p)) for p in ghost('pages'))",
+        "no-page-is-written": "fs_only_changed(hash_file_of(_ghost_zdir), ghost('whitelist'))",
+    },
+)
